@@ -37,7 +37,7 @@ func init() {
 
 func runC05(c *Ctx) {
 	r := c.R
-	r.Rule("O-1", "key completeness: every SearchOptions field read on the search path is copied from the searched options into the cache options at every projection site, is exported and serialised, and the cache options reach json.Marshal -> hash -> key")
+	r.Rule("O-1", "key completeness: the key function hashes the options exactly as given (no field rewritten first); every SearchOptions field read on the search path is copied from the searched options into the cache options at every projection site, is exported and serialised, and the cache options reach json.Marshal -> hash -> key")
 	r.Rule("O-2", "same key, same search: Get and Put share query and cache options; the stored list converts the result of SearchUniversal(query, options) of this activation; the function returns that result or the converted hit")
 	r.Rule("O-3", "invalidate on replacement: each store to Database.Commands reachable from the caching/monitoring layer is followed on all paths by InvalidateCache, which reaches LRUCache.Clear")
 	r.Rule("O-4", "switches: with the manager disabled the search bypasses the cache; SearchCache.Get/Put test `enabled` before anything else")
